@@ -81,9 +81,35 @@ def check(ctx):
     t1 = norm(ys[0].value) if ys else None
     t2 = norm(aps[0].args[0]) if aps and aps[0].args else None
     from ..pattern import pmatch
-    b1 = pmatch("function(_G, **kwargs) if len(_G) >= nrequired else default", ys[0].value) if ys else None
-    b2 = pmatch("function(_G) if len(_G) >= nrequired else default", aps[0].args[0]) if aps and aps[0].args else None
-    ok = b1 is not None and b2 is not None
+    from ..forms import value_cases, split_ifexp
+    from ..facts import facts_at
+
+    def gen_cases(fn_, leaves):
+        out = set()
+        for leaf, f in leaves:
+            cond = sorted((k, t) for k, t in f if "nrequired" in t and k == "T")
+            out.add((norm(leaf).replace(", **kwargs", ""), tuple(cond)))
+        return out
+    c1 = gen_cases(pa, [(leaf, f) for _, leaf, f in value_cases(pa, "yield")])
+    c2 = set()
+    for ap in aps:
+        base = frozenset(facts_at(na_, ap))
+        from ..facts import close_under_negation
+        c2 |= gen_cases(na_, [(leaf, frozenset(close_under_negation(base | f))) for leaf, f in split_ifexp(ap.args[0])])
+    gv1 = {norm(l.target) for l in ast.walk(pa.node) if isinstance(l, ast.For)}
+    gv2 = {norm(l.target) for l in ast.walk(na_.node) if isinstance(l, ast.For)}
+    def canon_g(cs, gvs):
+        out = set()
+        for leaf, cond in cs:
+            for g in gvs:
+                leaf = leaf.replace(g, "G")
+                cond = tuple((k, t.replace(g, "G")) for k, t in cond)
+            out.add((leaf, cond))
+        return out
+    c1, c2 = canon_g(c1, gv1), canon_g(c2, gv2)
+    t1, t2 = sorted(c1), sorted(c2)
+    ok = c1 == c2 and len(c1) == 2 and any(leaf == "function(G)" and ("T", "len(G) >= nrequired") in cond for leaf, cond in c1) \
+        and any(leaf == "default" for leaf, cond in c1)
     ctx.ob("SIB-8", na_, f"{t1} vs {t2}", na_.node, ok,
            "both apply the function from nrequired elements on and yield the default otherwise" if ok else
            "generic and generic_numba apply different threshold/default logic", clause="same values, same missing-value positions")
